@@ -810,7 +810,10 @@ impl Matcher for MouseEventMatcher {
     fn decode(&self, data: &[u8]) -> Option<Self::Item> {
         // "\x1b[<{event};{row};{col}(m|M)"
         let mut nums = numbers_decode(&data[3..data.len() - 1], b';');
+        // button, modifiers, motion and wheel flags fit in a byte, larger value
+        // is not a button code and must not be read as its low bits
         let event = nums.next()??;
+        u8::try_from(event).ok()?;
         let col = nums.next()??.checked_sub(1)?;
         let row = nums.next()??.checked_sub(1)?;
 
